@@ -177,10 +177,14 @@ STATS = [
 
 def run(ctx: Ctx):
   st = {}
-  for r in (r1, r2, r3, r4, r5, r6, r7, r9, r10):
+  for r in (r1, r2, r3, r4, r5, r6, r7, r9, r10, r12):
     ctx.guard(r, st)
   from mlmverif.props import c11
   from mlmverif.props._agg import model as aggmodel
+  ctx.include('R-C07-11', '"the one-shot function API returns the same value as the'
+              ' accumulator API": an accumulator keeps everything it combined'
+              ' (R-C11-6 lossless add/merge), truncation to top-k belongs in'
+              ' result()', c11.r6, aggmodel(ctx), min_instances=15)
   ctx.include('R-C07-8', '"the accumulator API returns the same value as the'
               ' one-shot API": an accumulator never shares mutable state with'
               ' a state merged into it, so later updates cannot corrupt either'
@@ -936,12 +940,56 @@ def r10(ctx: Ctx, st):
   ctx.floor(rule, 1, n)
 
 
+def r12(ctx: Ctx, st):
+  rule = 'R-C07-12'
+  ctx.rule(rule, 'reciprocal rank = 1 / rank of the FIRST relevant item:'
+           ' np.argmax returns the first position of the maximum, so the rank'
+           ' in _mean_reciprocal_rank is the argmax of a BOOLEAN mask of the'
+           ' cumulative hit counts (`tp_at_topks > 0`), plus one — applied to'
+           ' the counts themselves it finds where the count peaks, i.e. the'
+           ' last relevant item')
+  fi = ctx.repo.func(RET, '_mean_reciprocal_rank')
+  ams = [c for c in ast.walk(fi.node) if isinstance(c, ast.Call) and unparse(c.func) in ('np.argmax', 'numpy.argmax')]
+  if not ams:
+    raise AnalysisError(f'{rule}: np.argmax not found in _mean_reciprocal_rank')
+  p0 = fi.params()[0]
+  n = 0
+  for c in ams:
+    n += 1
+    a = c.args[0] if c.args else None
+    local = {x.targets[0].id: x.value for x in walk_no_nested(fi.node) if isinstance(x, ast.Assign)
+             and isinstance(x.targets[0], ast.Name)}
+    while isinstance(a, ast.Name) and a.id in local and a.id != p0:
+      a = local[a.id]
+    mask = isinstance(a, ast.Compare) and len(a.ops) == 1 and isinstance(a.ops[0], (ast.Gt, ast.NotEq, ast.GtE)) and (
+        p0 in {y.id for y in ast.walk(a) if isinstance(y, ast.Name)})
+    mask = mask or (isinstance(a, ast.Call) and unparse(a.func).split('.')[-1] in ('astype',) and 'bool' in unparse(a))
+    ax = unparse(kwarg(c, 'axis')) if kwarg(c, 'axis') is not None else None
+    if mask and ax == '1':
+      ctx.ok(rule, fi, f'rank = argmax({unparse(a)}, axis=1) + 1', c)
+    else:
+      ctx.fail(rule, fi, '_mean_reciprocal_rank: rank of the first hit = argmax(tp_at_topks > 0, axis=1) + 1',
+               f'`{unparse(c)}` is not the argmax of a boolean hit mask along the rank'
+               ' axis: with more than one relevant item per query it returns the'
+               ' position where the cumulative hit count peaks (the LAST hit), so'
+               ' MRR is 1/rank_of_last_hit', node=c)
+  ctx.floor(rule, 1, n)
+
+
 from mlmverif.selfcheck import B, OK  # noqa: E402
 
 _C = 'aggregates/classification.py'
 _T = 'aggregates/retrieval.py'
 _MC = 'metrics/classification.py'
 VARIANTS = [
+    B('mrr-argmax-of-counts', 'aggregates/retrieval.py',
+      '  ranks = np.argmax(tp_at_topks > 0, axis=1) + 1', '  ranks = np.argmax(tp_at_topks, axis=1) + 1', 'R-C07-12'),
+    OK('mrr-mask-in-local', 'aggregates/retrieval.py',
+       '  ranks = np.argmax(tp_at_topks > 0, axis=1) + 1', '  hit = tp_at_topks > 0\n  ranks = np.argmax(hit, axis=1) + 1'),
+    B('ngram-counter-compacted-to-top-k', 'aggregates/text.py',
+      '    self._state.merge(other.state)\n\n  def result(self) -> list[tuple[str, float]]:\n    return self._state.result()[:self.k]',
+      '    self._state.merge(other.state)\n    self._state.counter = collections.Counter(dict(self._state.counter.most_common(self.k)))\n\n  def result(self) -> list[tuple[str, float]]:\n    return self._state.result()[:self.k]',
+      'R-C07-11'),
     B('revert-macro-mean-axis', 'aggregates/classification.py',
       '      return np.mean(result, axis=-1)', '      return np.mean(result, axis=0)', 'R-C07-10'),
     B('safe-divide-with-tolerance', 'utils/math_utils.py',
